@@ -1,4 +1,5 @@
 import SeqVerif.Model.Agg
+import SeqVerif.Model.AggShard
 import SeqVerif.Extracted.C06T
 /-!
 # C06 - hand models = mechanical translations of the Go source (regenerated on every run)
@@ -41,5 +42,26 @@ theorem c06_t_extractBin (interval : Int) (mid : Nat) (hi : 0 < interval) (hi2 :
 
 example : T.histBucket 12345 1000 = some 12000 := by simp [T.histBucket, wrapU64]
 example : T.extractBin 12345 1000 = some 12000 := by simp [T.extractBin, wrapU64]
+
+/-- the numeric value of a response code (`storeapi.SearchErrorCode` in `pkg/storeapi/store_api.pb.go`; the case
+labels of the translated switch are these numbers, resolved by the Go type checker) -/
+def codeNum : Code → Int
+  | .noError => 0 | .wantsOldData => 1 | .tooManyUniq => 2 | .tooManyFractions => 3
+
+/-- `switch resp.Code` in `searchShard`: every code except `NO_ERROR` has an arm (each arm returns an error), so a
+refusing store is never taken for data - `Agg.shardOutcome` for any arm list that names exactly the translated arms -/
+theorem c06_t_shardCodeArm (c : Code) : (T.shardCodeArm (codeNum c) = 0) ↔ c = .noError := by
+  cases c <;> simp [T.shardCodeArm, codeNum]
+
+theorem c06_t_shardOutcome (arms : List String) (c : Code)
+    (harms : ("storeapi." ++ c.name) ∈ arms ↔ T.shardCodeArm (codeNum c) ≠ 0) :
+    shardOutcome arms c = if c = .noError then .data else .refused c := by
+  unfold shardOutcome
+  have := c06_t_shardCodeArm c
+  by_cases h : c = .noError
+  · have h0 : ¬ (("storeapi." ++ c.name) ∈ arms) := by rw [harms]; simp [this.mpr h]
+    rw [if_neg h0, if_pos h]
+  · have h1 : ("storeapi." ++ c.name) ∈ arms := by rw [harms]; exact fun e => h (this.mp e)
+    rw [if_pos h1, if_neg h]
 
 end SV.Props.C06
